@@ -131,11 +131,15 @@ pub fn filter_file_rule(
   let mut ret = smallvec![grep.clone()];
   if let Some(injected) = lang.injectable_sg_langs() {
     let docs = grep.inner.get_injections(|s| SgLang::from_str(s).ok());
-    let inj = injected.filter_map(|l| {
-      let doc = docs.iter().find(|d| *d.lang() == l)?;
-      let grep = AstGrep { inner: doc.clone() };
-      collect_file_stats(path, l, configs, trace).ok()?;
-      Some(grep)
+    // different injection names can resolve to one language, e.g. `js` and `javascript`:
+    // scan every injected document of that language, not only the first one
+    let inj = injected.flat_map(|l| {
+      let docs = docs.iter().filter(move |d| *d.lang() == l);
+      docs.filter_map(move |doc| {
+        let grep = AstGrep { inner: doc.clone() };
+        collect_file_stats(path, l, configs, trace).ok()?;
+        Some(grep)
+      })
     });
     ret.extend(inj)
   }
